@@ -22,7 +22,10 @@ func init() {
 }
 
 // ---------- well-formed files ----------
-func wellFormedRecord(r *rand.Rand) []byte {
+func wellFormedRecord(r *rand.Rand) []byte { return wellFormedRecordAt(r, 0) }
+
+// wellFormedRecordAt: the record will start at offset off of the (uncompressed) stream
+func wellFormedRecordAt(r *rand.Rand, off int) []byte {
 	g := genValidRecord(r)
 	if g.rt == 0 {
 		g.rt = 4
@@ -39,10 +42,10 @@ func wellFormedRecord(r *rand.Rand) []byte {
 	if g.rt == 32 { // the block of a revisit is an http header; declare a truthful digest only
 		fields = fullFieldsOdd(r, g, false, false)
 	}
-	if r.Intn(25) == 0 && len(fields) > 2 {
-		// a header line that ends exactly where a 4096-byte read buffer of the gzip reader ends
+	if r.Intn(8) == 0 && len(fields) > 2 {
+		// a header line that ends exactly where a 4096-byte read buffer ends
 		k := 1 + r.Intn(len(fields)-1)
-		before := len("WARC/1.1\r\n")
+		before := off%4096 + len("WARC/1.1\r\n")
 		for _, f := range fields[:k] {
 			before += len(f[0]) + 2 + len(f[1]) + 2
 		}
@@ -64,8 +67,12 @@ func (w wfile) bytes() []byte { return bytes.Join(w.parts, nil) }
 
 func genWFile(r *rand.Rand) wfile {
 	w := wfile{gz: r.Intn(2) == 0}
+	off := 0
 	for k := 1 + r.Intn(3); k > 0; k-- {
-		rec := wellFormedRecord(r)
+		rec := wellFormedRecordAt(r, off)
+		if !w.gz {
+			off += len(rec)
+		}
 		w.recs = append(w.recs, rec)
 		if w.gz {
 			w.parts = append(w.parts, gzipMember(rec))
